@@ -8,6 +8,7 @@
    carried through the archive like every other file: C02).  What has to be
    shown is therefore that nothing a bundle answers depends on the root other
    than as a prefix, nor on anything but the document. *)
+From Coq Require Import Permutation.
 From Slug Require Import Base.Str Base.PathAlg Base.PathLemmas Addr.Resolve Addr.ResolveProofs
   Addr.Url Addr.Parse Bundle.Lookup Bundle.LookupProofs Bundle.BestKey Bundle.ManifestRT.
 
@@ -149,4 +150,36 @@ Example C09_close_open_instance :
   end.
 Proof. vm_compute. repeat split. Qed.
 
+(* ... and the registry section.  For the builder's two registry tables (resolved
+   (package, version) -> source address; -> deprecation note), maps with the
+   same keys: every registry section whose records parse and whose bindings
+   are exactly the tables' entries - in any order, grouped by package or not,
+   OpenDir merging the records of one package - is read back as those tables:
+   the same registry packages, versions, source addresses and deprecation
+   notes.  A section of that kind exists whenever the printed forms parse back
+   (C06): one record per entry ([entry_record]). *)
+Theorem C09_registry_section_read_back :
+  forall R Dp, NoDup (map fst R) -> NoDup (map fst Dp) ->
+  forall regs,
+    (forall r, In r regs -> record_parses r) ->
+    Permutation R (reg_bindings regs) -> Permutation Dp (depr_bindings regs) ->
+    exists reg' depr',
+      load_registry regs [] [] = Ok (reg', depr') /\
+      (forall p v, lookup2 p v reg' = table_get R p v) /\
+      (forall p v, lookup2 p v depr' = table_get Dp p v).
+Proof. exact reopen_registry. Qed.
+
+Theorem C09_written_registry_read_back :
+  forall R Dp, NoDup (map fst R) -> NoDup (map fst Dp) -> map fst Dp = map fst R ->
+    (forall p v rp sub, In ((p, v), (rp, sub)) R ->
+       parse_registry_pkg (mpkg_string p) = Ok p /\ parse_version (version_string v) = Some v /\
+       parse_remote (remote_string rp sub) = Ok (rp, sub)) ->
+    exists reg' depr',
+      load_registry (map (entry_record Dp) R) [] [] = Ok (reg', depr') /\
+      (forall p v, lookup2 p v reg' = table_get R p v) /\
+      (forall p v, lookup2 p v depr' = table_get Dp p v).
+Proof. exact reopen_written_registry. Qed.
+
 Print Assumptions C09_what_close_writes_open_reads.
+Print Assumptions C09_registry_section_read_back.
+Print Assumptions C09_written_registry_read_back.
